@@ -69,7 +69,12 @@ std::string i128_str(__int128 v)
 template <typename T>
 std::string num(T const v)
 {
-  return i128_str(static_cast<__int128>(v));
+  if constexpr (std::is_same_v<T, __int128>)
+    return i128_str(v);
+  else if constexpr (std::is_signed_v<T>)
+    return std::to_string(static_cast<long long>(v));
+  else
+    return std::to_string(static_cast<unsigned long long>(v));
 }
 
 __int128 parse(std::string const &s)
@@ -118,18 +123,26 @@ template <typename Int, typename U, bool Strong>
 std::string range_line(fcppt::int_range<Int> const &r, __int128 const b, __int128 const e)
 {
   static_assert(std::is_same_v<typename fcppt::int_range<Int>::size_type, U>);
-  std::vector<std::string> out;
+  std::vector<U> vals;
+  vals.reserve(cap);
   bool overrun = false;
   for (Int const v : r)
   {
-    if (out.size() == cap)
+    if (vals.size() == cap)
     {
       overrun = true;
       break;
     }
-    out.push_back(num(fcppt::type_iso::undecorate(v)));
+    vals.push_back(fcppt::type_iso::undecorate(v));
   }
-  std::string res = overrun ? "overrun" : "n=" + std::to_string(out.size()) + " e=" + join_str(out);
+  std::string res = "overrun";
+  if (!overrun)
+  {
+    std::vector<std::string> out;
+    for (U const v : vals)
+      out.push_back(num(v));
+    res = "n=" + std::to_string(out.size()) + " e=" + join_str(out);
+  }
   // size(): for int / long the subtraction end_ - begin_ is undefined when it overflows; the harness does not execute
   // undefined behaviour (the model reports the same condition as a fault) - see op `irub` for the real call.
   __int128 const cnt = e < b ? 0 : e - b;
@@ -174,7 +187,7 @@ std::string ir_ops(std::vector<std::string> const &t)
   }
   if (t[0] == "irs" && t.size() == 3)
   {
-    if constexpr (sizeof(U) == 1)
+    if constexpr (sizeof(U) <= 2)
     {
       __int128 const b = parse(t[2]);
       if (!fits<U>(b))
@@ -561,4 +574,8 @@ std::string handle(std::vector<std::string> const &t)
 }
 }
 
-int main() { return vh::run(handle); }
+int main()
+{
+  vh::op_budget() = 60; // one `irs` line of a 16-bit type enumerates 65536 ranges
+  return vh::run(handle);
+}
